@@ -51,6 +51,14 @@ func c02Scenarios(tier string) []*Scenario {
 			}
 		}
 	}
+	// Header() asked for by another goroutine while the receive is under way: the failure still reaches the receiver
+	for _, tr := range []string{"inproc", "http"} {
+		for _, ret := range []string{"ret:st:5", "ret:plain"} {
+			add(tr, "", RPC{Kind: "ss", Client: []string{"S0", "C", "R*", "R"}, Client2: []string{"H"}, Handler: []string{"r", ret}})
+			add(tr, "", RPC{Kind: "cs", Client: []string{"S0", "C", "R*", "R"}, Client2: []string{"H"}, Handler: []string{"r*", ret}})
+			add(tr, "", RPC{Kind: "bd", Client: []string{"S0", "C", "R*", "R"}, Client2: []string{"H", "H"}, Handler: []string{"r*", "s0", ret}})
+		}
+	}
 	// the handler ends the call while the client's request stream is still open (no CloseSend yet)
 	for _, tr := range []string{"inproc", "http"} {
 		for _, h := range [][]string{{"r", "ret:st:9"}, {"r", "s0", "ret:st:9"}, {"r", "h:a", "t:b", "ret:st:9"}} {
